@@ -19,7 +19,7 @@ HASH_SHARDS = [0, 1, 2]      # parameter ORDER is part of the property: the gene
 PROFILE = grammar.profile(
     sig_variants=True, p_custom=1.0, p_signature=1.0, p_reserved_field=0.3, p_foreign_request=0.4, p_create=0.8,
     p_update=0.7, p_get=0.6, p_delete=0.4, p_list=0.3, p_sstream=0.2, p_cstream=0.0, p_bidi=0.0, p_lro=0.2,
-    p_service_config=0.3, p_yaml=0.05, transports=["grpc", "grpc", "grpc+rest"], p_value_fields=0.5, p_two_services=0.5, p_param_name_collision=0.012)
+    p_service_config=0.3, p_yaml=0.05, transports=["grpc", "grpc", "grpc+rest"], p_value_fields=0.5, p_two_services=0.5, p_param_name_collision=0.012, p_deprecated_flattened=0.4)
 
 BUDGET = {
     "quick": {"worlds": 150, "runs": 60, "wall_cap": 300, "world_wall": 90},
